@@ -934,7 +934,13 @@ class ReadParquetPyarrowFS(ReadParquet):
         metadata_file = False
         checksum = None
         dataset = None
-        if not self.ignore_metadata_file:
+        if self.ignore_metadata_file:
+            # the metadata files of the dataset are not data files
+            metadata_names = ("_metadata", "_common_metadata")
+            all_files = [
+                fi for fi in all_files if fi.base_name not in metadata_names
+            ] or all_files
+        else:
             all_files = sorted(
                 all_files, key=lambda x: x.base_name.endswith("_metadata")
             )
@@ -949,6 +955,9 @@ class ReadParquetPyarrowFS(ReadParquet):
                 dataset_info["using_metadata_file"] = True
                 dataset_info["fragments"] = _frags = list(dataset.get_fragments())
                 dataset_info["file_sizes"] = [None for fi in _frags]
+                # The file statistics are looked up by file info: one per fragment
+                by_path = {fi.path: fi for fi in all_files}
+                dataset_info["all_files"] = [by_path[frag.path] for frag in _frags]
 
         if checksum is None:
             checksum = tokenize(all_files)
